@@ -13,6 +13,13 @@
 
 #include "rlbox_stdlib_polyfill.hpp"
 
+#ifdef ALLENABY_RLBOX_VERIF
+extern "C" void rlbox_verif_point(const char* site,
+                                  const volatile void* addr,
+                                  std::size_t len);
+extern "C" void rlbox_verif_shared(const volatile void* addr, int is_write);
+#endif
+
 namespace rlbox {
 namespace detail {
   const int CompileErrorCode = 42;
@@ -55,6 +62,19 @@ namespace detail {
 #endif
 
 #define RLBOX_UNUSED(...) (void)__VA_ARGS__
+
+// Verification hooks (off unless ALLENABY_RLBOX_VERIF is defined): announce a
+// read of sandbox memory / an access to state shared between sandboxes to an
+// external checker. They expand to nothing otherwise.
+#ifdef ALLENABY_RLBOX_VERIF
+#  define RLBOX_VERIF_POINT(site, addr, len)                                   \
+    ::rlbox_verif_point(site, addr, len)
+#  define RLBOX_VERIF_SHARED(addr, is_write)                                    \
+    ::rlbox_verif_shared(addr, is_write)
+#else
+#  define RLBOX_VERIF_POINT(site, addr, len) (void)0
+#  define RLBOX_VERIF_SHARED(addr, is_write) (void)0
+#endif
 
 #define RLBOX_REQUIRE_SEMI_COLON static_assert(true)
 
